@@ -2,10 +2,10 @@
 //!
 //! [`m.room.join_rules`]: https://spec.matrix.org/latest/client-server-api/#mroomjoin_rules
 
-use std::{borrow::Cow, collections::BTreeMap};
+use std::collections::BTreeMap;
 
 use ruma_common::{
-    serde::{from_raw_json_value, ignore_invalid_vec_items},
+    serde::ignore_invalid_vec_items,
     space::SpaceRoomJoinRule,
     OwnedRoomId,
 };
@@ -14,7 +14,7 @@ use serde::{
     de::{Deserializer, Error},
     Deserialize, Serialize,
 };
-use serde_json::{value::RawValue as RawJsonValue, Value as JsonValue};
+use serde_json::Value as JsonValue;
 
 use crate::{EmptyStateKey, PrivOwnedStr};
 
@@ -136,25 +136,24 @@ impl<'de> Deserialize<'de> for JoinRule {
     where
         D: Deserializer<'de>,
     {
-        let json: Box<RawJsonValue> = Box::deserialize(deserializer)?;
+        // Deserialize to a generic JSON value rather than a `RawJsonValue`, so that this also works
+        // when the deserializer is not `serde_json`'s, e.g. for a flattened field of a struct.
+        let json = JsonValue::deserialize(deserializer)?;
 
-        #[derive(Deserialize)]
-        struct ExtractType<'a> {
-            #[serde(borrow)]
-            join_rule: Option<Cow<'a, str>>,
-        }
+        let join_rule = match json.get("join_rule") {
+            Some(JsonValue::String(join_rule)) => join_rule.clone(),
+            Some(_) => return Err(D::Error::custom("invalid type for field `join_rule`: expected a string")),
+            None => return Err(D::Error::missing_field("join_rule")),
+        };
 
-        let join_rule = serde_json::from_str::<ExtractType<'_>>(json.get())
-            .map_err(Error::custom)?
-            .join_rule
-            .ok_or_else(|| D::Error::missing_field("join_rule"))?;
-
-        match join_rule.as_ref() {
+        match join_rule.as_str() {
             "invite" => Ok(Self::Invite),
             "knock" => Ok(Self::Knock),
             "private" => Ok(Self::Private),
-            "restricted" => from_raw_json_value(&json).map(Self::Restricted),
-            "knock_restricted" => from_raw_json_value(&json).map(Self::KnockRestricted),
+            "restricted" => serde_json::from_value(json).map(Self::Restricted).map_err(D::Error::custom),
+            "knock_restricted" => {
+                serde_json::from_value(json).map(Self::KnockRestricted).map_err(D::Error::custom)
+            }
             "public" => Ok(Self::Public),
             _ => Ok(Self::_Custom(PrivOwnedStr(join_rule.into()))),
         }
@@ -233,22 +232,20 @@ impl<'de> Deserialize<'de> for AllowRule {
     where
         D: Deserializer<'de>,
     {
-        let json: Box<RawJsonValue> = Box::deserialize(deserializer)?;
-
-        // Extracts the `type` value.
-        #[derive(Deserialize)]
-        struct ExtractType<'a> {
-            #[serde(borrow, rename = "type")]
-            rule_type: Option<Cow<'a, str>>,
-        }
+        let json = JsonValue::deserialize(deserializer)?;
 
         // Get the value of `type` if present.
-        let rule_type =
-            serde_json::from_str::<ExtractType<'_>>(json.get()).map_err(Error::custom)?.rule_type;
+        let rule_type = match json.get("type") {
+            Some(JsonValue::String(rule_type)) => Some(rule_type.clone()),
+            Some(_) => return Err(D::Error::custom("invalid type for field `type`: expected a string")),
+            None => None,
+        };
 
         match rule_type.as_deref() {
-            Some("m.room_membership") => from_raw_json_value(&json).map(Self::RoomMembership),
-            Some(_) => from_raw_json_value(&json).map(Self::_Custom),
+            Some("m.room_membership") => {
+                serde_json::from_value(json).map(Self::RoomMembership).map_err(D::Error::custom)
+            }
+            Some(_) => serde_json::from_value(json).map(Self::_Custom).map_err(D::Error::custom),
             None => Err(D::Error::missing_field("type")),
         }
     }
